@@ -192,10 +192,11 @@ class Interp:
                 v = self.ev(b)
                 old = self.ev(a)
                 new = {'+=': old + v, '-=': old - v, '|=': old | v, '&=': old & v}[op]
+                new = self.wrap(new, n)
                 self.set_atom(path_key(a), new)
                 return new
             x, y = self.ev(a), self.ev(b)
-            return self.binop(op, x, y)
+            return self.wrap(self.binop(op, x, y), n)
         if k == 'ConditionalOperator':
             c, a, b = children(n)
             return self.ev(a) if self.ev(c) else self.ev(b)
@@ -210,6 +211,17 @@ class Interp:
         if k == 'CXXDefaultArgExpr':
             return self.ev(children(n)[0])
         raise Unsupported('expression kind %s at line %s' % (k, n.get('l')))
+
+    UNSIGNED_BITS = {'unsigned char': 8, 'unsigned short': 16, 'unsigned int': 32, 'unsigned long': 64,
+                     'unsigned long long': 64}
+
+    def wrap(self, v, n):
+        """unsigned arithmetic is modulo 2^N"""
+        if isinstance(v, int) and not isinstance(v, bool):
+            bits = self.UNSIGNED_BITS.get((n.get('t') or '').replace('const ', ''))
+            if bits:
+                return v & ((1 << bits) - 1)
+        return v
 
     @staticmethod
     def binop(op, x, y):
